@@ -895,6 +895,8 @@ class FileDomain(NormDomain):
             return Unknown('tofile with a separator')
         if name == 'tolist':
             def rec(a):
+                if not isinstance(a, FArr):
+                    return a            # indexing the last axis gives the cell itself
                 if a.ndim == 0:
                     return a.boxes[0].v
                 return Tup([rec(self.subscript(a, Const(i), node)) for i in range(a.shape[0])], 'list')
@@ -1303,6 +1305,34 @@ class FileDomain(NormDomain):
             return FArr.of(a0.shape, [fill] * a0.size, as_dtype(kwargs.get('dtype')) or a0.dtype)
         if np_ in ('matmul', 'dot') and len(args) == 2 and all(isinstance(a, FArr) for a in args):
             return self.matmul(args[0], args[1], node)
+        if np_ == 'tensordot' and len(args) >= 2 and all(isinstance(a, FArr) for a in args[:2]) and not (set(kwargs) - {'axes'}):
+            # contraction of the listed axes, the remaining axes of a then those of b: said as an einsum
+            a_, b_ = args[0], args[1]
+            axes = kwargs.get('axes', args[2] if len(args) > 2 else Const(2))
+            ax_a = ax_b = None
+            if self._int(axes) is not None:
+                k = self._int(axes)
+                if 0 <= k <= min(a_.ndim, b_.ndim):
+                    ax_a, ax_b = list(range(a_.ndim - k, a_.ndim)), list(range(k))
+            elif isinstance(axes, Tup) and len(axes.items) == 2:
+                def lst(v, nd):
+                    xs = [self._int(v)] if self._int(v) is not None else ([self._int(c) for c in v.items] if isinstance(v, Tup) else [None])
+                    return None if None in xs else [x % nd for x in xs]
+                ax_a, ax_b = lst(axes.items[0], a_.ndim), lst(axes.items[1], b_.ndim)
+            if ax_a is not None and ax_b is not None and len(ax_a) == len(ax_b) and len(set(ax_a)) == len(ax_a) and len(set(ax_b)) == len(ax_b):
+                if any(a_.shape[i] != b_.shape[j] for i, j in zip(ax_a, ax_b)):
+                    raise AbsRaise('ValueError', node)
+                letters = iter('abcdefghijklmnopqrstuvwxyz')
+                la, lb = [None] * a_.ndim, [None] * b_.ndim
+                for i, j in zip(ax_a, ax_b):
+                    la[i] = lb[j] = next(letters)
+                for i in range(a_.ndim):
+                    la[i] = la[i] or next(letters)
+                for j in range(b_.ndim):
+                    lb[j] = lb[j] or next(letters)
+                out = ''.join(c for i, c in enumerate(la) if i not in ax_a) + ''.join(c for j, c in enumerate(lb) if j not in ax_b)
+                return self.call_ext('numpy.einsum', [Const('%s,%s->%s' % (''.join(la), ''.join(lb), out)), a_, b_], {}, node)
+            return Unknown('tensordot with axes that are not followed')
         if dotted == 'numpy.linalg.lstsq' and len(args) >= 2 and isinstance(a0, FArr) and isinstance(args[1], FArr):
             return self.lstsq(a0, args[1], node)
         if np_ in ('frombuffer', 'fromstring', 'fromfile', 'loadtxt', 'genfromtxt', 'savetxt', 'save', 'load'):
